@@ -105,3 +105,44 @@ package atree
 //@   serves C18
 //@   ensures err == nil ==> v == svOf(recv) && v != nil
 //@   modifies alloc
+
+//@ # ---- the ledger adapter (C03, C04): a slab lives in the register (owner = the 8 address bytes, key = prefix + the 8 index bytes) of its
+//@ # identifier; storing writes that register, removing writes the empty value to it, retrieving reads it (an empty value = absent)
+//@ ghost lkey : fn(ind SlabIndex) []byte
+//@ func SlabIndexToLedgerKey(ind) (k)  serves C03 C04
+//@   trusted "string concatenation of the one-byte prefix and the 8 index bytes (strings are not modelled); abstracted as the function lkey of the index"
+//@   ensures k == lkey(ind)
+//@   pure
+//@ iface Ledger.GetValue(owner, key) (v, err)
+//@   modifies alloc
+//@ iface Ledger.SetValue(owner, key, value) (err)
+//@   modifies alloc
+//@ iface Ledger.AllocateSlabIndex(owner) (idx, err)
+//@   modifies alloc
+//@ pred ownerBytes(b []byte, a Address) = len(b) == 8 && (forall j :: 0 <= j && j < 8 ==> b[j] == a[j])
+
+//@ func (s *LedgerBaseStorage) Store(id, data) (err)  serves C03 C04 C18
+//@   requires s.ledger != nil
+//@   before[C03 C04] Ledger.SetValue: arg_recv == s.ledger && ownerBytes(arg_owner, id.address) && arg_key == lkey(id.index) && arg_value == data
+//@   ensures[C18] err != nil ==> categorised(err)
+//@   modifies s.bytesStored, alloc
+
+//@ func (s *LedgerBaseStorage) Remove(id) (err)  serves C03 C04 C18
+//@   requires s.ledger != nil
+//@   before[C03 C04] Ledger.SetValue: arg_recv == s.ledger && ownerBytes(arg_owner, id.address) && arg_key == lkey(id.index) && len(arg_value) == 0
+//@   ensures[C18] err != nil ==> categorised(err)
+//@   modifies alloc
+
+//@ func (s *LedgerBaseStorage) Retrieve(id) (data, found, err)  serves C03 C04 C18
+//@   requires s.ledger != nil
+//@   before[C03 C04] Ledger.GetValue: arg_recv == s.ledger && ownerBytes(arg_owner, id.address) && arg_key == lkey(id.index)
+//@   ensures[C03] err == nil ==> found == (len(data) > 0)
+//@   ensures[C18] err != nil ==> data == nil && !found && categorised(err)
+//@   modifies s.bytesRetrieved, alloc
+
+//@ func (s *LedgerBaseStorage) GenerateSlabID(address) (id, err)  serves C03 C18
+//@   requires s.ledger != nil
+//@   before[C03] Ledger.AllocateSlabIndex: arg_recv == s.ledger && ownerBytes(arg_owner, address)
+//@   ensures[C03] err == nil ==> id.address == address
+//@   ensures[C18] err != nil ==> categorised(err)
+//@   modifies alloc
